@@ -39,12 +39,6 @@ def language_views(langs, cost_models) -> bytes:
     return R.head(5, len(entries)) + b"".join(k + v for k, v in entries)
 
 
-def language_views_ascending_ids(langs, cost_models) -> bytes:
-    """the NON-canonical variant that orders the entries by language id (what KF-C12-views-order emits)"""
-    entries = [view(l, cost_models.get(l, {})) for l in sorted(set(langs))]
-    return R.head(5, len(entries)) + b"".join(k + v for k, v in entries)
-
-
 def script_data_hash(redeemer_bytes, datum_bytes, views: bytes) -> bytes:
     """redeemer_bytes: the encoded redeemers (None = absent -> a0); datum_bytes: encoded datum list or None"""
     pre = (redeemer_bytes if redeemer_bytes is not None else b"\xa0") + (datum_bytes or b"") + views
